@@ -1,12 +1,19 @@
 #!/bin/bash
-# tools/seedcheck.sh <seeded-dir-name> <props...>: apply a kept seeded change to a scratch worktree of /repo HEAD,
+# tools/seedcheck.sh <seeded-dir-name> <props...>: apply a kept seeded change to a scratch worktree of /repo HEAD (or, when the
+# patch no longer applies there because a later fix touched the same lines, of the base commit recorded in its meta.json),
 # run the quick checks against it (UCG_REPO), remove the worktree again.  /repo itself is not touched.
 set -u
 name=$1; shift
 wt=/tmp/wt/recheck-$name
 git -C /repo worktree remove --force $wt 2>/dev/null
 git -C /repo worktree add -q --detach $wt HEAD || exit 2
-git -C $wt apply /verif/seeded/$name/patch.diff || { echo "patch does not apply"; git -C /repo worktree remove --force $wt; exit 2; }
+if ! git -C $wt apply /verif/seeded/$name/patch.diff 2>/dev/null; then
+  base=$(python3 -c "import json;print(json.load(open('/verif/seeded/$name/meta.json'))['base_commit'])")
+  echo "patch does not apply to HEAD any more; using its base commit $base (violations of defects fixed since then will show too)"
+  git -C /repo worktree remove --force $wt
+  git -C /repo worktree add -q --detach $wt $base || exit 2
+  git -C $wt apply /verif/seeded/$name/patch.diff || { echo "patch does not apply"; git -C /repo worktree remove --force $wt; exit 2; }
+fi
 /verif/tools/seedtest.sh $wt "$@"
 rc=$?
 git -C /repo worktree remove --force $wt
